@@ -112,6 +112,9 @@ func replayAll(cfg *RunConfig, ld *Loaded, runs []*HarnessRun) *ReplayResult {
 		for _, f := range h.Failures {
 			cases = append(cases, &replayCase{Name: "fail:" + h.Name + "/" + f.ID, Harness: h.Name, Model: modelToStrings(f.Model), expect: f.ID})
 		}
+		if h.UsedOverrides {
+			continue // paths that ran on engine-only stubs cannot be compared with a native run
+		}
 		for i, tr := range h.Traces {
 			cases = append(cases, &replayCase{Name: fmt.Sprintf("trace:%s/%d", h.Name, i), Harness: h.Name, Model: modelToStrings(tr.Model), obs: tr.Observed})
 		}
